@@ -862,6 +862,9 @@ func (t *Tokenizer) readQuotedIdentifier() (models.Token, error) {
 	// Get and normalize opening quote
 	r, size := utf8.DecodeRune(t.input[t.pos.Index:])
 	quote := normalizeQuote(r)
+	// Typographic quotes delimit only what a typographic quote opened; inside
+	// "..." they are ordinary content and are kept as written
+	typographic := r != quote
 	startPos := t.pos.Clone()
 
 	// Skip opening quote
@@ -870,16 +873,14 @@ func (t *Tokenizer) readQuotedIdentifier() (models.Token, error) {
 	var buf bytes.Buffer
 	for t.pos.Index < len(t.input) {
 		r, size := utf8.DecodeRune(t.input[t.pos.Index:])
-		r = normalizeQuote(r)
 
-		if r == quote {
+		if r == quote || (typographic && normalizeQuote(r) == quote) {
 			// Check for escaped quote
 			if t.pos.Index+size < len(t.input) {
 				nextR, nextSize := utf8.DecodeRune(t.input[t.pos.Index+size:])
-				nextR = normalizeQuote(nextR)
-				if nextR == quote {
+				if nextR == quote || (typographic && normalizeQuote(nextR) == quote) {
 					// Include one quote and skip the other
-					buf.WriteRune(r)
+					buf.WriteRune(quote)
 					t.pos.Index += size + nextSize
 					t.pos.Column += 2
 					continue
@@ -990,6 +991,9 @@ func (t *Tokenizer) readQuotedString(quote rune) (models.Token, error) {
 	r, size := utf8.DecodeRune(t.input[t.pos.Index:])
 	originalQuote := r
 	quote = normalizeQuote(r)
+	// Typographic quotes delimit only what a typographic quote opened; inside
+	// '...' and "..." they are ordinary content and are kept as written
+	typographic := originalQuote != quote
 
 	// Skip opening quote
 	t.pos.AdvanceRune(r, size)
@@ -997,16 +1001,14 @@ func (t *Tokenizer) readQuotedString(quote rune) (models.Token, error) {
 	var buf bytes.Buffer
 	for t.pos.Index < len(t.input) {
 		r, size := utf8.DecodeRune(t.input[t.pos.Index:])
-		r = normalizeQuote(r)
 
-		if r == quote {
+		if r == quote || (typographic && normalizeQuote(r) == quote) {
 			// Check for escaped quote
 			if t.pos.Index+size < len(t.input) {
 				nextR, nextSize := utf8.DecodeRune(t.input[t.pos.Index+size:])
-				nextR = normalizeQuote(nextR)
-				if nextR == quote {
+				if nextR == quote || (typographic && normalizeQuote(nextR) == quote) {
 					// Include one quote and skip the other
-					buf.WriteRune(r)
+					buf.WriteRune(quote)
 					t.pos.Index += size + nextSize
 					t.pos.Column += 2
 					continue
